@@ -483,6 +483,26 @@ impl Sim {
         Ok(n)
     }
 
+    /// Like `start`, but the service is reached through an `anemo::Router` with these routes.
+    pub fn start_routed(&self, spec: &NodeSpec, routes: &[&str]) -> anyhow::Result<Network> {
+        let node = self.fabric.nodes();
+        let svc = HarnessSvc::new(node, self.svc.clone());
+        let mut router = anemo::Router::new();
+        for r in routes {
+            router = router.route(r, svc.clone());
+        }
+        let mut b = Network::bind("127.0.0.1:0")
+            .private_key(key_bytes(spec.key))
+            .server_name(spec.name.clone())
+            .config(spec.config.clone());
+        if let Some(a) = &spec.alt {
+            b = b.alternate_server_name(a.clone());
+        }
+        let n = b.start(router)?;
+        self.labels.lock().unwrap().insert(n.peer_id(), format!("n{node}"));
+        Ok(n)
+    }
+
     /// Like `start`, with anemo-tower's per-peer in-flight limit around the service.
     pub fn start_inflight(&self, spec: &NodeSpec, max: usize, block: bool) -> anyhow::Result<Network> {
         use anemo_tower::inflight_limit::{InflightLimit, WaitMode};
@@ -676,6 +696,27 @@ pub struct RpcOutcome {
 pub async fn do_rpc(sim: &Sim, net: &Network, peer: PeerId, spec: &RpcSpec) -> RpcOutcome {
     let t_start_us = sim.now_us();
     let r = net.rpc(peer, spec.to_request()).await;
+    let t_end_us = sim.now_us();
+    RpcOutcome {
+        id: spec.id.clone(),
+        result: match r {
+            Ok(resp) => Ok(RpcOk {
+                status: resp.status(),
+                headers: resp.headers().iter().map(|(k, v)| (k.clone(), v.clone())).collect(),
+                peer_id: resp.peer_id().copied(),
+                body: resp.into_body(),
+            }),
+            Err(e) => Err(format!("{e:#}")),
+        },
+        t_start_us,
+        t_end_us,
+    }
+}
+
+/// The same through a `Peer` handle the caller keeps.
+pub async fn do_rpc_via(sim: &Sim, peer: &mut anemo::Peer, spec: &RpcSpec) -> RpcOutcome {
+    let t_start_us = sim.now_us();
+    let r = peer.rpc(spec.to_request()).await;
     let t_end_us = sim.now_us();
     RpcOutcome {
         id: spec.id.clone(),
